@@ -148,7 +148,7 @@ def after_checks(sim, notes_before=None):
     sim.realgit("add", "z.txt")
     rc, _, err = sim.git("commit", "-q", "-m", "follow-up", "--", "z.txt")
     if rc != 0 and not any(os.path.exists(os.path.join(sim.repo, ".git", s)) for s in ("rebase-merge", "rebase-apply", "MERGE_HEAD", "CHERRY_PICK_HEAD")):
-        problems.append(f"follow-up `git commit` fails ({rc}): {err[-200:]}")
+        problems.append(f"follow-up `git commit` fails ({rc}): {'[EISDIR] ' if 'Is a directory' in err else ''}{err[-200:]}")
     for blob, obj in sim.notes_list():
         raw = sim.note_raw(obj)
         if raw is None:
@@ -308,7 +308,13 @@ def scenario(args):
                         # but a bit flip inside a stored line number or session id is indistinguishable from a different claim
                         pr = [x for x in pr if not (x.startswith("invented") and how in ("bitflip", "garbage", "firstline")
                                                     and os.path.basename(t) != "rewrite_log")]
-                        if pr:
+                        k3 = (how == "dir" and os.path.basename(t) == "checkpoints.jsonl" and pr
+                              and all(x.startswith("follow-up `git commit` fails") and "[EISDIR]" in x for x in pr))
+                        if k3:
+                            # known class C07-K3: the working log cannot be read or written at the OS level
+                            stats.setdefault("known_k3", 0)
+                            stats["known_k3"] += 1
+                        elif pr:
                             fails.append({"what": f"after {how} of {t}: " + "; ".join(pr[:3])})
                 finally:
                     shutil.rmtree(s.base, ignore_errors=True)
@@ -354,12 +360,16 @@ def run(ctx):
         violations.append(("regression of repaired defect 2f498aeb: a wrapped command fails when .git/ai cannot be prepared",
                            {"kind": "fixed-witness"}))
     n = sum(tot.values())
+    k3 = sum(r_["stats"].get("known_k3", 0) for r_ in res if "stats" in r_)
     k1 = sum(r_["stats"].get("known_k1", 0) for r_ in res if "stats" in r_)
     known = []
     if k1:
         known.append("C07-K1 the internal call that resolves HEAD (symbolic-ref HEAD / rev-parse refs/heads/<branch>) fails inside the "
                      "pre-commit checkpoint: the failure is taken for an unborn branch, the checkpoint goes to the `initial` working log, "
                      "the commit proceeds and post-commit applies the stale working log — a line a person rewrote is committed as AI")
+    if k3:
+        known.append("C07-K3 checkpoints.jsonl cannot be read or written at the OS level (replaced by a directory): the pre-commit "
+                     "checkpoint fails and every later `git commit` is refused until the private state is repaired by hand")
     return {"obligations": obligations, "violations": violations, "known_seen": known,
             "searched": f"{len(COMMANDS)} commands; injected failures {tot['fail_at']}, kills {tot['kill_at']}, corruptions {tot['corrupt']}",
             "coverage": {"evaluations": n + len(COMMANDS) + 1, "distinct_nontrivial": n,
